@@ -15,6 +15,7 @@ CLASSES = {
  ],
  'C10': [
   ('T01-prec-eq-rel', r'^calculator\.table\.(eq|neq)\.(gt|gte|lt|lte)$', "constant expressions: == and != share one precedence level with < > <= >=, so `a == b > c` is grouped as `(a == b) > c` (C: `a == (b > c)`)"),
+  ('T03-prec-eq-rel-tables', r'^table/(stmt|init)/(eq|neq)\.(gt|gte|lt|lte)@', "the statement-level and the local-initialiser operator tables (read from the MIR of compile()) also put == / != on the level of < > <= >=: `3 == 2 < 1` folds to (3 == 2) < 1 (same defect as T01 / C01 K12)"),
   ('T02-ternary-sentinel', r'^parse_calc\.ternary\.sentinel$', "constant `c ? a : b` uses the value 0x7eaddead as an in-band 'condition was false' marker: `1 ? 2125323949 : x` yields x"),
  ],
  'C17': [
